@@ -24,14 +24,28 @@ IsMark(x) == DOMAIN x = {"recovered"}
 R(ok, end, val, em, fl) == [ok |-> ok, end |-> end, val |-> val, em |-> em, fl |-> fl]
 Fail(fl) == R(FALSE, 0, VU, <<>>, fl)
 
-XTok(X, i) == IF i < Len(X.toks) THEN X.toks[i + 1] ELSE ""
+(* X = [toks, offs, kind, lo, hi]: lo..hi is the flat range of the input context (C16): the whole *)
+(* input, or the tokens of one group of a token tree                                               *)
+XTok(X, i) == IF i < X.hi THEN X.toks[i + 1] ELSE ""
+XIsTree(X) == X.kind \in {"tree", "treem"}
+RECURSIVE XClose(_, _, _)
+XClose(X, j, depth) ==
+  IF j > Len(X.toks) THEN Len(X.toks)
+  ELSE IF X.toks[j] = "(" THEN XClose(X, j + 1, depth + 1)
+  ELSE IF X.toks[j] = ")" THEN (IF depth = 1 THEN j ELSE XClose(X, j + 1, depth - 1))
+  ELSE XClose(X, j + 1, depth)
+(* position after the token at p: a group (from "(" to its matching ")") is one token *)
+XNxt(X, p) == IF XIsTree(X) /\ p < Len(X.toks) /\ X.toks[p + 1] = "(" THEN XClose(X, p + 2, 1) ELSE p + 1
+RECURSIVE XIdx(_, _, _)
+XIdx(X, lo, p) == IF p <= lo THEN 0 ELSE 1 + XIdx(X, XNxt(X, lo), p)
 (* the span of the tokens between positions i and j: from the start of the first to the end  *)
 (* of the last; an empty match gets an empty span lying just before the following token (C07) *)
-XGapped(X) == X.kind \in {"mapped", "mstream", "iter"}
+XGapped(X) == X.kind \in {"mapped", "mstream", "iter", "treem"}
 XSpan(X, i, j) ==
-  IF ~XGapped(X) THEN <<X.offs[i + 1], X.offs[j + 1]>>
+  IF X.kind = "tree" THEN <<XIdx(X, X.lo, i), XIdx(X, X.lo, j)>>
+  ELSE IF ~XGapped(X) THEN <<X.offs[i + 1], X.offs[j + 1]>>
   ELSE LET n == Len(X.toks) IN
-       IF i = n THEN <<3 * n, 3 * n>>
+       IF i = X.hi THEN (IF X.lo = 0 /\ X.hi = n THEN <<3 * n, 3 * n>> ELSE <<3 * i + 1, 3 * i + 1>>)
        ELSE IF j > i THEN <<3 * i + 1, 3 * j - 1>>
        ELSE <<3 * i + 1, 3 * i + 1>>
 
@@ -45,7 +59,7 @@ EvUser(X, pos, i, j, msg) ==
 EvUserRd(X, pos, rd, i, j, msg) ==
   LET sp == XSpan(X, i, j) IN [pos |-> pos, rd |-> rd, err |-> MkErr(sp[1], sp[2], "", {}, msg, <<>>)]
 (* failure of a single-token matcher at p *)
-EvTok(X, p, exp) == EvEF(X, p, exp, XTok(X, p), p, IF XTok(X, p) = "" THEN p ELSE p + 1)
+EvTok(X, p, exp) == EvEF(X, p, exp, XTok(X, p), p, IF XTok(X, p) = "" THEN p ELSE XNxt(X, p))
 
 DCtxToks(c) == CASE c[1] = "T" -> <<c[2]>> [] c[1] = "S" -> c[2] [] OTHER -> <<>>
 DCtxNum(c) == IF c[1] = "I" THEN c[2] ELSE 0
@@ -54,6 +68,8 @@ DCtxNum(c) == IF c[1] = "I" THEN c[2] ELSE 0
 RECURSIVE Pfx(_, _, _)
 Pfx(X, seq, p) == IF seq = <<>> \/ XTok(X, p) = "" \/ XTok(X, p) # Head(seq) THEN 0 ELSE 1 + Pfx(X, Tail(seq), p + 1)
 
+RECURSIVE XAdvK(_, _, _, _)
+XAdvK(X, p, k, n) == IF k = 0 \/ p >= X.hi THEN <<p, n>> ELSE XAdvK(X, XNxt(X, p), k - 1, n + 1)
 RECURSIVE D(_, _, _, _, _)
 RECURSIVE DPratt(_, _, _, _, _, _)
 RECURSIVE DPrattLoop(_, _, _, _, _, _, _, _)
@@ -245,7 +261,7 @@ DPratt(g, X, p, c, env, minp) ==
 D(g, X, p, c, env) ==
   LET o == Op(g)
       t == XTok(X, p)
-      one(okc, v, exp) == IF t # "" /\ okc THEN R(TRUE, p + 1, v, <<>>, {}) ELSE Fail({EvTok(X, p, exp)})
+      one(okc, v, exp) == IF t # "" /\ okc THEN R(TRUE, XNxt(X, p), v, <<>>, {}) ELSE Fail({EvTok(X, p, exp)})
       just(seq) == LET k == Pfx(X, seq, p) IN
                    IF k = Len(seq) THEN R(TRUE, p + k, VS(seq), <<>>, {})
                    ELSE Fail({EvTok(X, p + k, {"t:" \o seq[k + 1]})})
@@ -260,8 +276,22 @@ D(g, X, p, c, env) ==
     [] o = "end" -> IF t = "" THEN R(TRUE, p, VU, <<>>, {}) ELSE Fail({EvTok(X, p, {"eoi"})})
     [] o \in {"empty", "probe"} -> R(TRUE, p, VU, <<>>, {})
     [] o = "cust" ->
-         IF p + g[2] <= Len(X.toks) /\ g[3] THEN R(TRUE, p + g[2], VC(g[2]), <<>>, {})
-         ELSE Fail({EvUser(X, p, p, Min2(p + g[2], Len(X.toks)), "cu")})
+         LET a == XAdvK(X, p, g[2], 0) IN
+         IF a[2] = g[2] /\ g[3] THEN R(TRUE, a[1], VC(g[2]), <<>>, {})
+         ELSE Fail({EvUser(X, p, p, a[1], "cu")})
+    \* a group token yields its inner input
+    [] o = "tree" -> one(t = "(", <<"In", p + 1, XNxt(X, p) - 1>>, {"else"})
+    \* C16: a.nested_in(b): b yields the inner input; a must match ALL of it (and nothing else:
+    \* it sees exactly the tokens of that group); the outer position advances by what b consumed;
+    \* emissions of both surface in order; inner failures surface at the outer position
+    [] o = "nested" ->
+         LET rb == D(g[3], X, p, c, env) IN
+         IF ~rb.ok THEN rb
+         ELSE LET XI == [X EXCEPT !.lo = rb.val[2], !.hi = rb.val[3]]
+                  ra == D(<<"theni", g[2], <<"end">>>>, XI, XI.lo, c, env)
+                  ifl == {[e EXCEPT !.pos = rb.end] : e \in ra.fl}
+              IN IF ra.ok THEN R(TRUE, rb.end, ra.val, rb.em \o ra.em, rb.fl \cup ifl)
+                 ELSE Fail(rb.fl \cup ifl)
     [] o \in {"then", "ithen", "theni"} ->
          LET r == DSeq(<<g[2], g[3]>>, X, p, c, env, <<>>) IN
          IF ~r.ok THEN r
@@ -281,7 +311,7 @@ D(g, X, p, c, env) ==
     [] o = "ornot" -> IF un.ok THEN [un EXCEPT !.val = VO(@)] ELSE R(TRUE, p, VN, <<>>, un.fl)
     [] o = "not" ->
          \* lookahead: consumes nothing, keeps nothing of what the operand did
-         IF un.ok THEN Fail({EvEF(X, IF t = "" THEN p ELSE p + 1, {"else"}, t, p, un.end)})
+         IF un.ok THEN Fail({EvEF(X, IF t = "" THEN p ELSE XNxt(X, p), {"else"}, t, p, un.end)})
          ELSE R(TRUE, p, VU, <<>>, {})
     [] o = "rewind" -> IF un.ok THEN [un EXCEPT !.end = p] ELSE un
     [] o = "andis" ->
